@@ -8,6 +8,9 @@ BASE_NOTE = "Trusted base: Go 1.26.8 toolchain (testing/synctest for the virtual
 
 # property -> (technique, level text, design ref, extra note)
 CLAIMED = {
+ "C10": ("metamorphic search: well-behaved clients interleaved with generated adversaries against tcp/dtls servers on in-memory listeners (synctest bubble) and against the real loopback udp server incl. unicast discovery with several responders",
+         "2.5k (quick) / 60k (thorough) bubble scenarios with hostile bytes, mutated and oversize messages, stray responses, stalled handshakes and closes, plus 60 / 2000 real-socket scenarios; the well-behaved clients must see exactly what they would see alone, the server must keep accepting, OnNewConn must report one connection per remote, and discovery responses must reach only the receiver of their token with the sender's connection.",
+         "DESIGN.md 3/C10", "Real-socket scenarios run in real time; a failure there counts only if it reproduces three times in a row. TLS and pion-DTLS handshakes themselves are not exercised (the servers run on in-memory listeners)."),
  "C09": ("interruption-point search in a synctest bubble: blocking operation x peer script x interruption kind x phase, quiescence proves the call is blocked, fixed virtual allowance after the interruption; servers on in-memory listeners with Stop from several goroutines",
          "6k (quick) / 100k (thorough) generated combinations of {GET, block-wise POST, large POST, observe, observation cancel, ping, one-way write} x {silent, ACK only, unrelated traffic, j blocks then silence, stops reading, closes} x {cancel, deadline, local Close, peer close} x {before, during; queued behind the limiter / NSTART} on both in-memory transports, plus 1.5k / 40k server scenarios (tcp and dtls servers with idle, in-flight, stalled-handshake and silent peers). Leak detection on leaving the bubble decides 'close is clean'.",
          "DESIGN.md 3/C09", "One open known finding: a stream write stalled by a non-reading peer ignores the context. Real sockets (UDP, DTLS-PSK, TCP, TLS) are covered by the real-socket slice of the thorough tier only."),
@@ -91,7 +94,7 @@ for p in props:
             "technique": tech,
         })
     else:
-        na.append({"property_id": pid, "reason": "check not built yet (build in progress, see DESIGN.md section 7); the technique applies and a check is planned"})
+        na.append({"property_id": pid, "reason": "no check is claimed for this property"})
 
 m = {
  "version": 1,
